@@ -309,6 +309,152 @@ theorem merge_exceeds_limit_witness (r o : SReg) (x : Op)
   unfold verify
   simp [verifyCountCmp, Cmp.rejects, hlen]
 
+/-! ## Across the entry limit: a concrete reachable replica holding `MAX_REG_NUM_ENTRIES` ops
+
+`fillReg n`: the register `openBase` (anyone may write) after `n` accepted `add_op`s of `n` distinct ops. The
+construction is generic in the generated constant `Gen.Register.maxNumEntries` (no small stand-in limit, no large
+`decide`): every lemma is an induction. -/
+
+def fillOp (addr k : Nat) : Op :=
+  { addr := addr, node := k, children := [], size := 0, source := 0, sig := 0, sigOk := true }
+
+def fillOps (addr n : Nat) : List Op := (List.range n).map (fillOp addr)
+
+def openBase : Base := { addr := 1, owner := 1, perms := .anyone }
+
+def fillReg (n : Nat) : SReg := { base := openBase, ownerSigOk := true, ops := fillOps 1 n }
+
+theorem length_fillOps (a n : Nat) : (fillOps a n).length = n := by simp [fillOps]
+
+theorem fillOps_succ (a n : Nat) : fillOps a (n + 1) = fillOps a n ++ [fillOp a n] := by
+  simp [fillOps, List.range_succ]
+
+theorem fillOp_not_mem {a n k : Nat} (h : n ≤ k) : fillOp a k ∉ fillOps a n := by
+  intro hm
+  obtain ⟨j, hj, e⟩ := List.mem_map.1 hm
+  have : j = k := by
+    have := congrArg Op.node e
+    simpa [fillOp] using this
+  subst this
+  have := List.mem_range.1 hj
+  omega
+
+theorem fillOps_zero (a : Nat) : fillOps a 0 = [] := rfl
+
+-- from here on `fillOps` is used through the four lemmas above only (keeps unification from unfolding
+-- `List.range MAX_REG_NUM_ENTRIES`)
+attribute [local irreducible] fillOps
+
+theorem valid_fillOp (k : Nat) : Valid openBase (fillOp 1 k) :=
+  ⟨rfl, Or.inl rfl, by simp [fillOp]⟩
+
+theorem addOp_fillReg {n : Nat} (h : n < maxNumEntries) : addOp (fillReg n) (fillOp 1 n) = .ok (fillReg (n + 1)) := by
+  have hb := (addOp_below_limit (fillReg n) (fillOp 1 n) (by simp [fillReg, length_fillOps]; exact h)).1 (valid_fillOp n)
+  rw [hb]
+  simp only [fillReg, fillOps_succ, insertOp, fillOp_not_mem (Nat.le_refl n), if_false]
+
+/-- `fillReg n` is reachable through accepted `add_op`s alone, up to and including the limit. -/
+theorem reach_fillReg (n : Nat) (h : n ≤ maxNumEntries) : Reach (fillReg n) := by
+  induction n with
+  | zero =>
+    have e : fillReg 0 = { base := openBase, ownerSigOk := true, ops := [] } := by simp [fillReg, fillOps_zero]
+    rw [e]; exact Reach.init openBase
+  | succ n ih => exact Reach.add (fillOp 1 n) (ih (by omega)) (addOp_fillReg (by omega))
+
+/-- a full replica refuses every further `add_op` -/
+theorem addOp_full (r : SReg) (op : Op) (h : r.ops.length = maxNumEntries) :
+    addOp r op = .error (.tooManyEntries r.ops.length) := by
+  unfold addOp
+  simp [addOpCountCmp, Cmp.rejects, h]
+
+/-- the one-op replica of the same register holding op number `k` -/
+def oneOpReg (k : Nat) : SReg := { base := openBase, ownerSigOk := true, ops := [fillOp 1 k] }
+
+theorem reach_oneOpReg (k : Nat) : Reach (oneOpReg k) := by
+  refine Reach.add (fillOp 1 k) (Reach.init openBase) ?_
+  have hb := (addOp_below_limit { base := openBase, ownerSigOk := true, ops := [] } (fillOp 1 k)
+    (by simp [maxNumEntries])).1 (valid_fillOp k)
+  rw [hb]
+  simp [oneOpReg, insertOp]
+
+/-- **Witness K-e, instantiated.** There *are* reachable replicas `r` (holding exactly `MAX_REG_NUM_ENTRIES` ops,
+accepted one by one by `add_op`, itself passing `verify`) and `o` (one accepted op, passing `verify`) of one register
+such that `r.verified_merge(o)` succeeds and leaves `r` in a state that `verify` rejects with
+`TooManyEntries(MAX_REG_NUM_ENTRIES + 1)`. -/
+theorem merge_exceeds_limit_instance :
+    ∃ r o r', Reach r ∧ r.ops.length = maxNumEntries ∧ verify r = .ok () ∧ Reach o ∧ verify o = .ok () ∧
+      verifiedMerge r o = .ok r' ∧ Reach r' ∧ verify r' = .error (.tooManyEntries (maxNumEntries + 1)) := by
+  have hr : Reach (fillReg maxNumEntries) := reach_fillReg _ (Nat.le_refl _)
+  have hlen : (fillReg maxNumEntries).ops.length = maxNumEntries := by simp [fillReg, length_fillOps]
+  have ho : Reach (oneOpReg maxNumEntries) := reach_oneOpReg _
+  have hvo : verify (oneOpReg maxNumEntries) = .ok () :=
+    reachable_verifies_partial ho (by simp [oneOpReg, maxNumEntries])
+  have hx : fillOp 1 maxNumEntries ∉ (fillReg maxNumEntries).ops :=
+    fillOp_not_mem (a := 1) (n := maxNumEntries) (k := maxNumEntries) (Nat.le_refl _)
+  obtain ⟨r', h1, h2, h3⟩ := merge_exceeds_limit_witness (fillReg maxNumEntries) (oneOpReg maxNumEntries)
+    (fillOp 1 maxNumEntries) hr hlen hvo (mergeable_refl _) rfl hx
+  exact ⟨_, _, r', hr, hlen, reachable_verifies_partial hr (by omega), ho, hvo, h1, h2, h3⟩
+
+/-- **The full statement is false of the current code** (known finding K-e). -/
+theorem not_reachableVerifies : ¬ ReachableVerifies := by
+  intro h
+  obtain ⟨_, _, r', _, _, _, _, _, _, hr', hv⟩ := merge_exceeds_limit_instance
+  rw [h r' hr'] at hv
+  cases hv
+
+/-- The full statement "replicas that have received the same set of valid operations, in any order and with any
+duplication, hold identical operation sets" for deliveries through `add_op` — with no bound on the number of
+operations. FALSE of the current code across `MAX_REG_NUM_ENTRIES`, see the witness. -/
+def SameOpsSameState : Prop :=
+  ∀ (r : SReg) (l₁ l₂ : List Op), Reach r → (∀ x, x ∈ l₁ ↔ x ∈ l₂) → SetEq (deliver r l₁).ops (deliver r l₂).ops
+
+theorem deliver_pair_at_limit (r : SReg) (a b : Op) (hlen : r.ops.length + 1 = maxNumEntries)
+    (ha : Valid r.base a) (har : a ∉ r.ops) : (deliver r [a, b]).ops = r.ops ++ [a] := by
+  have h1 := (addOp_below_limit r a (by omega)).1 ha
+  have hfull : ({ r with ops := insertOp r.ops a } : SReg).ops.length = maxNumEntries := by
+    simp [insertOp, har]; omega
+  have h2 := addOp_full { r with ops := insertOp r.ops a } b hfull
+  simp only [deliver, h1, h2]
+  simp [insertOp, har]
+
+/-- **Witness (K-e, delivery order across the limit).** A replica one op short of the limit is offered the same two
+valid new ops in the two possible orders: whichever comes first is accepted, the other is refused with
+`TooManyEntries` — the two replicas have received the same set of valid operations and hold different op sets. -/
+theorem deliver_diverges_across_limit (r : SReg) (a b : Op) (hlen : r.ops.length + 1 = maxNumEntries)
+    (ha : Valid r.base a) (hb : Valid r.base b) (hab : a ≠ b) (har : a ∉ r.ops) (hbr : b ∉ r.ops) :
+    (a ∈ (deliver r [a, b]).ops ∧ b ∉ (deliver r [a, b]).ops) ∧
+    (b ∈ (deliver r [b, a]).ops ∧ a ∉ (deliver r [b, a]).ops) := by
+  rw [deliver_pair_at_limit r a b hlen ha har, deliver_pair_at_limit r b a hlen hb hbr]
+  refine ⟨⟨by simp, ?_⟩, ⟨by simp, ?_⟩⟩
+  · simp only [List.mem_append, List.mem_singleton, not_or]; exact ⟨hbr, fun e => hab e.symm⟩
+  · simp only [List.mem_append, List.mem_singleton, not_or]; exact ⟨har, hab⟩
+
+/-- … instantiated on the reachable replica `fillReg (MAX_REG_NUM_ENTRIES - 1)`. -/
+theorem same_ops_diverge_witness :
+    ∃ r a b, Reach r ∧ Valid r.base a ∧ Valid r.base b ∧
+      (∀ x, x ∈ [a, b] ↔ x ∈ [b, a]) ∧ a ∈ (deliver r [a, b]).ops ∧ a ∉ (deliver r [b, a]).ops := by
+  have hpos : maxNumEntries - 1 + 1 = maxNumEntries := by simp [maxNumEntries]
+  have hne : fillOp 1 maxNumEntries ≠ fillOp 1 (maxNumEntries + 1) := by
+    intro e
+    have := congrArg Op.node e
+    simp [fillOp] at this
+  have ha : fillOp 1 maxNumEntries ∉ (fillReg (maxNumEntries - 1)).ops :=
+    fillOp_not_mem (a := 1) (n := maxNumEntries - 1) (k := maxNumEntries) (by omega)
+  have hb : fillOp 1 (maxNumEntries + 1) ∉ (fillReg (maxNumEntries - 1)).ops :=
+    fillOp_not_mem (a := 1) (n := maxNumEntries - 1) (k := maxNumEntries + 1) (by omega)
+  have hl : (fillReg (maxNumEntries - 1)).ops.length + 1 = maxNumEntries := by
+    show (fillOps 1 (maxNumEntries - 1)).length + 1 = maxNumEntries
+    rw [length_fillOps]; exact hpos
+  have hd := deliver_diverges_across_limit (fillReg (maxNumEntries - 1)) (fillOp 1 maxNumEntries)
+    (fillOp 1 (maxNumEntries + 1)) hl (valid_fillOp _) (valid_fillOp _) hne ha hb
+  exact ⟨_, _, _, reach_fillReg _ (by omega), valid_fillOp _, valid_fillOp _,
+    fun x => by simp [or_comm], hd.1.1, hd.2.2⟩
+
+theorem not_sameOpsSameState : ¬ SameOpsSameState := by
+  intro h
+  obtain ⟨r, a, b, hr, _, _, hs, hin, hout⟩ := same_ops_diverge_witness
+  exact hout ((h r [a, b] [b, a] hr hs a).1 hin)
+
 /-! ## Non-vacuity -/
 
 def base0 : Base := { addr := 1, owner := 1, perms := .writers [1, 2] }
@@ -342,6 +488,12 @@ end SafeNet.Props.C06
 #print axioms SafeNet.Props.C06.reachable_verifies_partial
 #print axioms SafeNet.Props.C06.addOp_keeps_limit
 #print axioms SafeNet.Props.C06.merge_exceeds_limit_witness
+#print axioms SafeNet.Props.C06.reach_fillReg
+#print axioms SafeNet.Props.C06.merge_exceeds_limit_instance
+#print axioms SafeNet.Props.C06.not_reachableVerifies
+#print axioms SafeNet.Props.C06.deliver_diverges_across_limit
+#print axioms SafeNet.Props.C06.same_ops_diverge_witness
+#print axioms SafeNet.Props.C06.not_sameOpsSameState
 
 /-!
 # C06, CRDT part — `MerkleReg` replicas that received the same set of nodes are identical observably
@@ -432,6 +584,72 @@ theorem crdt_merge_idem {R : List Node} {s : MReg} (r : MerkleReg.Reach R s)
     (hcons : ∀ n ∈ R, ∀ m ∈ R, n.hash = m.hash → n = m) : StateEquiv (MerkleReg.merge s s) s :=
   (crdt_reachable_converge (MerkleReg.Reach.merge r r) r (fun n => by simp) (HC.congr (fun n => by simp) hcons)).1
 
+/-! ## Equal op sets present identical current values (the two models connected)
+
+A replica's op set (`SafeNet.Register`, a `BTreeSet<RegisterOp>`) and the CRDT that presents its current value
+(`SafeNet.MerkleReg`) are tied as the code ties them: the client builds the `RegisterCrdt` of a fetched replica by
+applying every op of `signed_reg.ops()` (`autonomi::client::registers::register_get`; `Register::merge`/`update` keep
+the two in step the same way), and `RegisterCrdt::apply_op` hands the op's `crdt_op` node to `MerkleReg::apply`. -/
+
+/-- the CRDT node a register op carries (`RegisterOp::crdt_op`: hash, children; the value is part of the hash) -/
+def nodeOf (op : SafeNet.Register.Op) : Node := { hash := op.node, children := op.children }
+
+/-- the CRDT state of a replica holding `ops`: every op applied, in the order the set lists them (the list order
+stands for the `BTreeSet` order — any order gives an equivalent state, see below) -/
+def crdtOf (ops : List SafeNet.Register.Op) : MReg := (ops.map nodeOf).foldl MerkleReg.apply {}
+
+/-- hash consistency of the ops of a replica: the node hash determines the node (SHA3 collision-freedom) -/
+def NodeConsistent (ops : List SafeNet.Register.Op) : Prop :=
+  ∀ x ∈ ops, ∀ y ∈ ops, x.node = y.node → x.children = y.children
+
+theorem crdtOf_equiv (a b : List SafeNet.Register.Op) (h : SafeNet.Register.SetEq a b) (hc : NodeConsistent a) :
+    StateEquiv (crdtOf a) (crdtOf b) := by
+  apply crdt_apply_order_independent
+  · intro n
+    simp only [List.mem_map]
+    constructor
+    · rintro ⟨x, hx, e⟩; exact ⟨x, (h x).1 hx, e⟩
+    · rintro ⟨x, hx, e⟩; exact ⟨x, (h x).2 hx, e⟩
+  · intro n hn m hm hnm
+    obtain ⟨x, hx, ex⟩ := List.mem_map.1 hn
+    obtain ⟨y, hy, ey⟩ := List.mem_map.1 hm
+    subst ex; subst ey
+    simp only [nodeOf] at hnm ⊢
+    rw [hnm, hc x hx y hy hnm]
+
+/-- **Identical op sets ⇒ identical current values.** Two replicas whose op sets are equal (`SetEq`: in any order
+of arrival, with any duplication — lists stand for sets) present the same `read()`: the same set of current entry
+hashes; and the same CRDT state altogether (dag, orphans, roots, size). -/
+theorem same_ops_same_read (a b : List SafeNet.Register.Op) (h : SafeNet.Register.SetEq a b) (hc : NodeConsistent a) :
+    ∀ v, v ∈ read (crdtOf a) ↔ v ∈ read (crdtOf b) :=
+  (crdtOf_equiv a b h hc).read
+
+/-- **Convergence, end to end** (below the entry limit): replicas of one register that were delivered the same set
+of operations through `add_op` — in any order, with any duplication — hold identical op sets *and* present identical
+current values. -/
+theorem same_deliveries_same_values_partial (r : SafeNet.Register.SReg) (l₁ l₂ : List SafeNet.Register.Op)
+    (hsame : ∀ x, x ∈ l₁ ↔ x ∈ l₂)
+    (h₁ : r.ops.length + l₁.length < SafeNet.Gen.Register.maxNumEntries)
+    (h₂ : r.ops.length + l₂.length < SafeNet.Gen.Register.maxNumEntries)
+    (hc : NodeConsistent (deliver r l₁).ops) :
+    SafeNet.Register.SetEq (deliver r l₁).ops (deliver r l₂).ops ∧
+    ∀ v, v ∈ read (crdtOf (deliver r l₁).ops) ↔ v ∈ read (crdtOf (deliver r l₂).ops) :=
+  have e := same_ops_same_state_partial r l₁ l₂ hsame h₁ h₂
+  ⟨e, same_ops_same_read _ _ e hc⟩
+
+/-- Replicas merged in either order present identical current values. -/
+theorem merge_comm_same_read {a b ra rb : SafeNet.Register.SReg}
+    (h₁ : SafeNet.Register.merge a b = .ok ra) (h₂ : SafeNet.Register.merge b a = .ok rb)
+    (hc : NodeConsistent ra.ops) : ∀ v, v ∈ read (crdtOf ra.ops) ↔ v ∈ read (crdtOf rb.ops) :=
+  same_ops_same_read _ _ (merge_comm h₁ h₂) hc
+
+-- two replicas holding the same three ops in different list orders (one chain, delivered child-last to the second)
+example :
+    let o1 : SafeNet.Register.Op := { addr := 1, node := 1, children := [], size := 1, source := 1, sig := 0, sigOk := true }
+    let o2 : SafeNet.Register.Op := { o1 with node := 2, children := [1] }
+    let o3 : SafeNet.Register.Op := { o1 with node := 3, children := [2] }
+    read (crdtOf [o1, o2, o3]) = [3] ∧ read (crdtOf [o3, o2, o1]) = [3] := by decide
+
 /-! ## Non-vacuity (CRDT part) -/
 
 def n1 : Node := { hash := 1, children := [] }
@@ -471,3 +689,7 @@ end SafeNet.Props.C06
 #print axioms SafeNet.Props.C06.crdt_merge_read_converges
 #print axioms SafeNet.Props.C06.crdt_reachable_converge
 #print axioms SafeNet.Props.C06.crdt_merge_idem
+#print axioms SafeNet.Props.C06.crdtOf_equiv
+#print axioms SafeNet.Props.C06.same_ops_same_read
+#print axioms SafeNet.Props.C06.same_deliveries_same_values_partial
+#print axioms SafeNet.Props.C06.merge_comm_same_read
